@@ -43,6 +43,10 @@
 (*   WindowIsLastW       the window holds exactly the last min(k, w) steps *)
 (*   MonotoneInLatest    a larger latest NIS (same dimension) never turns  *)
 (*                       a detection into a non-detection                  *)
+(*   NisScaleInvariant   the NIS consumed per step is the full quadratic   *)
+(*                       form nu' S^-1 nu, the same at every absolute      *)
+(*                       scale of the measurement units (deviation         *)
+(*                       OffDiagDropped is refuted)                        *)
 (* The harness replays every emitted history into the real classes         *)
 (* (spec -> impl) and validates recorded runs of the real classes with     *)
 (* TraceDetectors.tla, which reuses the Step actions (impl -> spec).       *)
@@ -312,6 +316,39 @@ MonotoneInLatestAdj ==
 \* with detect / undecided listed per significance level 1..NAlpha (needs Bank)
 Emit == (KeepHist /\ Bank /\ pc = "ready" /\ k = MaxLenOf(cfg)) =>
           PrintT("HIST " \o ToJson(<<cfg.kind, cfg.w, cfg.delta[1], cfg.delta[2], hist>>))
+
+\* ---------------------------------------------------------------- the NIS itself
+\* chiSquareQuadraticForm(nu, S) = nu' S^-1 nu, written out exactly for two dimensions on
+\* an integer lattice (S = <<s11, s12, s22>> positive definite):
+\*     (nu1^2 s22 - 2 nu1 nu2 s12 + nu2^2 s11) / (s11 s22 - s12^2)
+\* It depends on the correlation s12 and is invariant under a change of measurement units
+\* (nu -> c nu, S -> c^2 S): the statistic the detectors consume is the same posed NIS at
+\* every absolute scale.  "floor" > 0 is the named deviation OffDiagDropped: off-diagonal
+\* entries below an ABSOLUTE floor are treated as zero ("the covariance is diagonal
+\* anyway"); it is exact at one scale and wrong at another, i.e. not scale invariant.
+AbsI(x) == IF x < 0 THEN -x ELSE x
+QF2(nu, S, floor) ==
+  LET s12 == IF AbsI(S[2]) < floor THEN 0 ELSE S[2]
+  IN Norm(nu[1] * nu[1] * S[3] - 2 * nu[1] * nu[2] * s12 + nu[2] * nu[2] * S[1],
+          S[1] * S[3] - s12 * s12)
+QFNus    == (-2..2) \X (-2..2)
+QFCovs   == {S \in (1..3) \X (-2..2) \X (1..3) : S[1] * S[3] - S[2] * S[2] > 0}
+QFScales == {1, 3, 10}
+ScaleNu(nu, c) == <<c * nu[1], c * nu[2]>>
+ScaleS(S, c)   == <<c * c * S[1], c * c * S[2], c * c * S[3]>>
+ScaleInvariant(floor) ==
+  \A nu \in QFNus, S \in QFCovs, c \in QFScales :
+     QF2(ScaleNu(nu, c), ScaleS(S, c), floor) = QF2(nu, S, 0)
+NisScaleInvariant == ScaleInvariant(0)
+OffDiagDropped    == ScaleInvariant(5)      \* the deviation; must be refuted
+\* checked by TLC at the start of every run: the documented form is scale invariant and the
+\* deviation is not (spec mutant killed)
+ASSUME NisScaleInvariant /\ ~OffDiagDropped
+\* the lattice with its exact values, for the harness to replay into the real
+\* chiSquareQuadraticForm at several physical scales (printed once, in the initial state)
+EmitQF2 == pc = "new" =>
+  \A nu \in QFNus, S \in QFCovs, c \in QFScales :
+     PrintT("QF2 " \o ToJson(<<ScaleNu(nu, c), ScaleS(S, c), QF2(nu, S, 0)>>))
 
 \* ---- named constant values for cfg files (cfg syntax has no tuples) ----
 DeltasQuick == {<<1, 2>>, <<4, 5>>}
